@@ -12,9 +12,11 @@ class CanBind(object):
 
 class CanCustomize(object):
     def __propagate_name(self, kwargs):
+        # For a bound callable, the name is that of the executor it's bound to
+        source = getattr(self, "_BoundCallable__executor", self)
         for name_attr in ("_name", "_CustomizableThreadPoolExecutor__name"):
-            if hasattr(self, name_attr) and "name" not in kwargs:
-                kwargs["name"] = getattr(self, name_attr)
+            if hasattr(source, name_attr) and "name" not in kwargs:
+                kwargs["name"] = getattr(source, name_attr)
                 return
 
     def with_retry(self, *args, **kwargs):
